@@ -753,6 +753,9 @@ func UnmarshalTypeYAML(value *yaml.Node) (Type, error) {
 	case "!generic":
 		return UnmarshalGenericNode(value)
 	case "!!seq":
+		if value.Kind != yaml.SequenceNode {
+			return nil, parseError(value, "expected a sequence of types")
+		}
 		cases, err := UnmarshalTypeCases(value)
 		return &GeneralizedType{NodeMeta: createNodeMeta(value), Cases: cases, Dimensionality: nil}, err
 	case "!vector":
